@@ -1065,7 +1065,10 @@ func cutTextPref(text string, runs [][2]int, r *rng, baseDir string, maxDepth in
 					genStats.MaxChain = depth
 				}
 			}
-			sb.WriteString(indent + "INCLUDE " + rel + nl)
+			// how the INCLUDE line itself is spelt is free: separators, blanks after the name, a remark
+			sep := []string{" ", " ", " ", "  ", "\t", " \t "}[r.n(6)]
+			tail := []string{"", "", "", "", "  ", "\t", " # moved"}[r.n(7)]
+			sb.WriteString(indent + "INCLUDE" + sep + rel + tail + nl)
 			ncuts++
 			at = c.to
 		}
